@@ -199,7 +199,8 @@ def _open_fault(world, url):
     f = world.faults.take("open", n)
     if f is not None:
         kind = f["kind"]
-        if kind in ("open-http-404", "open-http-500", "read-truncated"):
+        if kind in ("open-http-404", "open-http-500", "read-truncated",
+                    "read-truncated-huge"):
             return n, f        # the http connection acts on these
         world.fired(f)
         if kind == "open-enoent":
@@ -291,6 +292,10 @@ class FakeSocket:
                 status, text = "500 Internal Server Error", "oops"
             elif kind == "read-truncated":
                 extra = 7
+            elif kind == "read-truncated-huge":
+                # the server announces some nine million bytes more than it
+                # sends before the connection ends
+                extra = 9 * 1024 * 1024
         if text is None:
             w.probe("open-missing")
             status, text = "404 Not Found", "no such simulated resource"
